@@ -39,11 +39,16 @@ func SentinelMiddleware(opts ...Option) gin.HandlerFunc {
 		}
 
 		defer entry.Exit()
-		c.Next()
 		// A gin handler has no return value: it reports a failure by attaching the error to the
 		// context (c.Error, c.AbortWithError), which is where the middlewares around it find it.
-		if last := c.Errors.Last(); last != nil {
-			sentinel.TraceError(entry, last.Err)
+		// Only errors attached from here on belong to this entry (the list is the request's: an
+		// earlier middleware may have left a soft failure in it).
+		before := len(c.Errors)
+		c.Next()
+		if len(c.Errors) > before {
+			if last := c.Errors.Last(); last != nil {
+				sentinel.TraceError(entry, last.Err)
+			}
 		}
 	}
 }
